@@ -8,7 +8,8 @@ CLAUSES = {1: "a response carried the content of a file OUTSIDE the served tree 
            3: "a request to a shell endpoint (/c, /i/{id}, /o/{id}, /io) was answered with file content / by the file handler",
            4: "with -serve-files-from unset a non-shell path was not answered 404",
            5: "single-file mode returned something other than the configured file",
-           6: "file content was served without a 'file requested' notice to the operator"}
+           6: "file content was served without a 'file requested' notice to the operator",
+           21: "net/http's mux redirected (301) a path Model/Files.mux_redirects does not, or the reverse"}
 H = lambda s: (s if isinstance(s, bytes) else s.encode()).hex()
 TREE = ["a.txt", "sub/b.txt", "c", "io", "i/x", "o/x", "index.html", "sub/index.html", "sp ace.txt", "dot.file", "sub/deep/d.txt", "%2e%2e/enc.txt", "i/y/z"]
 OUTSIDE = ["canary.txt", "root-secret/s.txt", "root2/index.html"]
@@ -49,10 +50,22 @@ def make_cases(rng, tier):
     frags = ["..", "%2e%2e", "%252e%252e", ".", "sub", "deep", "a.txt", "canary.txt", "root-secret", "", "%2f", "%5c", "c", "i", "x", "%00", "..%2f", "%2e"]
     for _ in range(n):
         reqs.append(("GET", "/" + "/".join(rng.choice(frags) for _ in range(rng.randrange(1, 7)))))
+    # clients that have already gone away when the handler runs: a half-closing TLS client (request, then close_notify), and requests whose
+    # context is cancelled before the handler starts; the file is still served, so it must still be reported
+    hows = ["raw"] * len(reqs)
+    for k in range(8 if tier == "quick" else 40):
+        reqs.append(("GET", "/" + urllib.parse.quote(TREE[k % 2]))); hows.append("halfclose")
+    for k in range(24 if tier == "quick" else 120):
+        reqs.append(("GET", "/" + urllib.parse.quote(TREE[k % 2]))); hows.append("cancelled")
     cases = []
     for mode in ("dir", "none", "file"):
-        acts = [{"a": "raw", "req": H("%s %s HTTP/1.1\r\nHost: h.example\r\nConnection: close\r\nContent-Length: 0\r\n\r\n" % (m, t)), "quiet_ms": 15}
-                for m, t in reqs]
+        acts = []
+        for (m, t), how in zip(reqs, hows):
+            if how == "cancelled":
+                acts.append({"a": "direct", "method": m, "target": t, "host": "h.example", "cancelled": True, "quiet_ms": 15})
+            else:
+                acts.append({"a": "raw", "req": H("%s %s HTTP/1.1\r\nHost: h.example\r\nConnection: close\r\nContent-Length: 0\r\n\r\n" % (m, t)),
+                             "quiet_ms": 15, "halfclose": how == "halfclose"})
         cfg = {"fdir": mode, "tree": tree if mode != "none" else [], "outside": outside}
         if mode == "file":
             cfg["single"] = "a.txt"
@@ -118,7 +131,8 @@ def check(run):
                "raw request lines over real TLS against a real Server in three modes (directory tree with files named c, io, i/x, o/x, index.html and "
                "tagged canary files just outside the root incl. a sibling whose name extends the root's; unset; single file): every tree file, the shell "
                "endpoints with GET/POST/PUT/HEAD, 42 hostile targets (plain, percent-encoded and double-encoded '..', encoded slashes and backslashes, "
-               "NUL, 5000-byte path, 40-level climbs, absolute-form) and random compositions of such fragments; non-trivial = a file was served, a "
+               "NUL, 5000-byte path, 40-level climbs, absolute-form) and random compositions of such fragments; tree files requested by half-closing TLS "
+               "clients and with an already-cancelled request context; non-trivial = a file was served, a "
                "shell path, or a path that is not already clean", [allinputs[0], allinputs[len(TREE) + 1]], {"tags": dist, "files_served": served})
     # the model of path.Clean against the real library
     if ok2:
